@@ -12,7 +12,7 @@ Theorem C06_gate : forall t g cb o path dl cm,
   well_checked' (la_given cb) (go_events r) = true /\
   (forall kf, go_res r = inr kf ->
      exists n, fs_lstat t path = Some n /\ sec_ok (g_sec g) n = true /\
-               In (EvOpen path) (go_events r) /\ kf_path kf = Some path /\
+               In (EvOpen path) (go_events r) /\ kf_path kf = Some (real_name t path) /\
                match cb with Some f => f path = true | None => True end) /\
   (rejected (go_events r) = true -> go_res r = inl ECONF_PARSING_CALLBACK_FAILED /\
                                     ~ In (EvOpen path) (go_events r)).
@@ -21,7 +21,7 @@ Print Assumptions C06_gate.
 
 (* a whole layered read, any tree, any number of layers and files: every file
    opened was accepted immediately before; the consulted files are exactly the
-   files opened, in processing order, each carrying its own path; a rejection of
+   files opened, in processing order, each carrying its own path (as read_file was handed it: real_name); a rejection of
    any file makes the read fail with the callback code *)
 Theorem C06_history : forall t g cb o parse_dirs conf_dirs name sfx dl cm, cb <> None ->
   let h := history t g cb o parse_dirs conf_dirs name sfx dl cm in
@@ -30,7 +30,7 @@ Theorem C06_history : forall t g cb o parse_dirs conf_dirs name sfx dl cm, cb <>
   (rejected (ho_events h) = true -> ho_res h = inl ECONF_PARSING_CALLBACK_FAILED) /\
   (forall files, ho_res h = inr files ->
      rejected (ho_events h) = false /\
-     map (fun kf => Some (get_path kf)) files = map Some (opens_of (ho_events h)) /\
+     map (fun kf => Some (get_path kf)) files = map (fun p => Some (real_name t p)) (opens_of (ho_events h)) /\
      files <> []).
 Proof. exact history_events_cb. Qed.
 Print Assumptions C06_history.
